@@ -14,7 +14,8 @@ PID = 'C17'
 SPECIAL_BASE = ("palette is a set.\nqueue is a list.\npalette contains 1, 2, 3.\nqueue contains first, second, third.\n"
                 "A time is a temporal concept expressed in minutes ranging from 07:30 AM to 08:00 AM with a length of 10 minutes.\n"
                 "A node is identified by an id, and has a weight.\nA worker is identified by an id.\nA visit is identified by an id, and by a time.\n"
-                "Every worker can paint a node.\n")
+                "Every worker can paint a node.\n"
+                "A color is identified by a name.\nAn assignment is identified by a node, and by a color.\nEvery node can be assigned to exactly 1 color.\n")
 
 
 def faults_generic(concept, other):
@@ -43,6 +44,10 @@ FAULTS_SPECIAL = [
     ('set-value', 'It is prohibited that there is an element 5 in palette.', '5'),
     ('list-value', 'It is prohibited that a worker works in the queue element after fourth.', 'fourth'),
     ('list-index', 'It is prohibited that a worker works in the 7th element in queue.', '7'),
+    # a bare attribute name on a composite concept / relation means an attribute of its OWN; that a linked concept has one of that name does not make it legal
+    ('missing-attribute/inherited-bare-name-on-relation', 'It is prohibited that a node N is assigned with name N to a color C.', 'name'),
+    ('missing-attribute/inherited-bare-name-on-concept', 'It is prohibited that there is an assignment with id X.', 'id'),
+    ('missing-attribute/inherited-bare-name-on-concept', 'It is prohibited that there is an assignment with name X.', 'name'),
     ('undeclared-set', 'It is prohibited that X is equal to 1, whenever there is an element X in ghostset.', 'ghostset'),
 ]
 PAD = ['', '// padding comment', '', '/* block */']
